@@ -88,6 +88,7 @@ def r1(ctx, F):
                 found = True
                 ok = True
                 why = []
+                derived = []
                 for ai, (shape, rootname) in argspec.items():
                     cos = capture_origins(F, body, ct['args'][ai])
                     good = bool(cos)
@@ -101,6 +102,8 @@ def r1(ctx, F):
                             a1 = pfl.origins(pb.blocks[o.bb]['term']['args'][1])
                             root_ok = all((x.kind == 'upvar' and canon(F, pb, pb.upvars.get(int(x.key))) == rootname) or (x.kind == 'param' and canon(F, pb, pb.local_name(x.key)) == rootname) for x in a0) and bool(a0)
                             rel_ok = bool(a1) and all(x.kind == 'call' and x.key == 'std::iter::Iterator::next' for x in a1) and from_plan_transfer(pfl, a1)
+                            if root_ok and not rel_ok and a1 and all(x.kind == 'call' and x.key == 'std::iter::Iterator::next' for x in a1) and derived_work_list(F, pfl, a1):
+                                derived.append(ai)
                             good = good and root_ok and rel_ok
                         else:
                             # "<remote_root>/<rel>": evaluated symbolically from the values the string is built of (any spelling:
@@ -112,15 +115,23 @@ def r1(ctx, F):
                                     return ('root',)
                                 if os_ and all(x.kind == 'call' and x.key == 'std::iter::Iterator::next' for x in os_) and from_plan_transfer(fl_, os_):
                                     return ('rel',)
+                                if os_ and all(x.kind == 'call' and x.key == 'std::iter::Iterator::next' for x in os_) and derived_work_list(F, fl_, os_):
+                                    return ('rel?',)
                                 return None
                             if not (o.kind == 'call' and o.bb is not None):
                                 good = False
                                 continue
                             pcs = merge_pieces(str_pieces(F, pfl, {'k': 'copy', 'p': pb.blocks[o.bb]['term']['dst']}, leaf))
+                            if pcs == [('root',), '/', ('rel?',)]:
+                                derived.append(ai)
                             good = good and pcs == [('root',), '/', ('rel',)]
                     if not good:
                         ok = False
                         why.append('argument %d is not %s(%s, rel of plan.transfer)' % (ai, shape, rootname))
+                if not ok and len(derived) == len(why):
+                    # right roots, right shape; the entry is an element of a work list a crate helper made out of the plan
+                    ctx.undecided('C04.R1', '%s hands %s entries of a work list that a helper derived from the plan: that they are plan.transfer entries is not followed' % (fn.split('::')[-1], callee_path.split('::')[-1]))
+                    continue
                 ctx.check(ok, 'C04.R1', '%s:%s' % (fn.split('::')[-1], callee_path.split('::')[-1]), 'paths built from the destination/source roots and the plan.transfer entry',
                           'the delivery call does not get paths derived from the roots and the same plan.transfer entry: %s' % '; '.join(why), term_loc(body, cb))
         if not found:
@@ -136,6 +147,57 @@ def plan_loop_var(body, fl, name):
         if os_ and all(o.kind == 'call' and o.key == 'std::iter::Iterator::next' for o in os_) and from_plan_transfer(fl, os_):
             return True
     return False
+
+
+KEEPS_ALL = ('iter', 'into_iter', 'collect', 'rev', 'peekable', 'by_ref', 'copied', 'cloned', 'as_slice', 'deref', 'from_iter', 'to_vec')
+TAKES_SOME = ('filter', 'partition', 'skip', 'take', 'skip_while', 'take_while', 'step_by', 'split_off', 'drain', 'partition_in_place')
+
+
+def _collection_kind(F, fl, io, depth=0):
+    """'plan' (plan.transfer itself, possibly through adaptors that keep every element), 'part' (a sub-list of it: filter,
+    partition, ... or a list a crate function made from the plan), None (something else)"""
+    if any(x.kind == 'call' and x.key == 'plan::build_plan' and x.path[-1:] == ('transfer',) for x in io):
+        return 'plan'
+    if depth > 6:
+        return None
+    kinds = set()
+    for x in io:
+        if x.kind == 'comb':
+            continue
+        if x.kind != 'call' or x.bb is None:
+            return None
+        short = str(x.key).split('::')[-1]
+        if F.body(str(x.key)) is not None and str(x.key) != 'plan::build_plan':
+            kinds.add('part')
+            continue
+        inner = _collection_kind(F, fl, call_arg_origins(fl, x.bb, 0), depth + 1)
+        if inner is None:
+            return None
+        if short in KEEPS_ALL:
+            kinds.add(inner)
+        elif short in TAKES_SOME:
+            kinds.add('part')
+        else:
+            return None
+    if not kinds:
+        return None
+    return 'part' if 'part' in kinds else 'plan'
+
+
+def derived_work_list(F, fl, next_origins):
+    """the iterated collection is a sub-list of plan.transfer (filter / partition of it) or what a crate function made (a work
+    list split off the plan by a helper, a struct of lists): which plan entries it holds is not followed here"""
+    hit = False
+    for o in next_origins:
+        if o.bb is None:
+            return False
+        io = call_arg_origins(fl, o.bb, 0) | iterated_collection(fl, o.bb)
+        k = _collection_kind(F, fl, io)
+        if k == 'part':
+            hit = True
+        elif k != 'plan':
+            return False
+    return hit
 
 
 def from_plan_transfer(fl, next_origins):
